@@ -16,7 +16,8 @@ func init() { register("C14", runC14) }
 func genUniqueProgram(r *lib.Rng) string {
 	g := newScopeGen(r)
 	n := 0
-	prefixes := []string{"ab", "ac", "ba", "abc", "x"}
+	// "in", "do", "or": names that begin with a reserved word (index, done, order …): the typed prefix is a keyword
+	prefixes := []string{"ab", "ac", "ba", "abc", "x", "in", "do", "or"}
 	g.fresh = func() string {
 		n++
 		return fmt.Sprintf("%s%d", prefixes[r.Intn(len(prefixes))], n)
@@ -104,7 +105,7 @@ func runC14(res *lib.Result, tier string, seed int64, args []string) error {
 					indent = pi + "  "
 				}
 			}
-			prefix := []string{"a", "ab", "ac", "b", "x", "abc"}[r.Intn(6)]
+			prefix := []string{"a", "ab", "ac", "b", "x", "abc", "in", "do", "or"}[r.Intn(9)]
 			if nonUnique {
 				prefix = []string{"a", "b", "c", "x", "y", "v"}[r.Intn(6)]
 			}
@@ -157,6 +158,11 @@ func runC14(res *lib.Result, tier string, seed int64, args []string) error {
 				ui := lines[at][:len(lines[at])-len(strings.TrimLeft(lines[at], " "))]
 				ins = ui + "until " + prefix
 			} else if ins != "" {
+				if !sandwich && tail == "" && r.Chance(1, 4) {
+					// a declaration BEHIND the cursor on the cursor's own line: not visible yet
+					tail = " local " + prefix + "lt = 1"
+					res.Dist("cursor.declaration-behind-it-on-the-line")
+				}
 				nl = append(nl, ins+tail)
 				if sandwich {
 					nl = append(nl, indent+"local "+prefix+"sw = 2")
@@ -167,7 +173,20 @@ func runC14(res *lib.Result, tier string, seed int64, args []string) error {
 			nl = append(nl, rest...)
 			src := strings.Join(nl, "\n") + "\n"
 			line, col := at+1+lineShift, len(ins) // 1-based line for the driver; col = end of prefix
-			ans, err := drv.Ask(fmt.Sprintf("complete %s %s %d %d", lib.Hex([]byte(src)), lib.ConvTableFor([]byte(src)), line, col))
+			// a typed prefix that is itself a reserved word (in, do, or) does not parse as an expression: the model gets the
+			// same text with a placeholder identifier of the same length in its place (what is visible at the cursor does
+			// not depend on how the prefix is spelt); the server gets the text as typed
+			modelSrc := src
+			if luaKeywords[prefix] {
+				ml := strings.Split(src, "\n")
+				cl := ml[line-1]
+				if col >= len(prefix) && col <= len(cl) && cl[col-len(prefix):col] == prefix {
+					ml[line-1] = cl[:col-len(prefix)] + strings.Repeat("q", len(prefix)) + cl[col:]
+					modelSrc = strings.Join(ml, "\n")
+					res.Dist("prefix.is-a-keyword")
+				}
+			}
+			ans, err := drv.Ask(fmt.Sprintf("complete %s %s %d %d", lib.Hex([]byte(modelSrc)), lib.ConvTableFor([]byte(modelSrc)), line, col))
 			if err != nil {
 				return err
 			}
